@@ -14,6 +14,7 @@ ASSUMPTIONS = ["File::open / metadata().len() / the file system are not modelled
                "digest functions: Python hashlib as reference (see C13)"]
 CONTENTS = [b"", b"x", b"hello\n", b"no newline", b"\x00\x01\xff\xfe", b"$NetBSD: patch-aa,v 1.1 $\n\n--- a\n+++ b\n", b"a\n$NetBSD$\nb\n", b"a\nb $NetBSD$\n", b"\n", b"ab" * 100,
             b"a\n$$NetBSD$$\nb\n", b"$N$NetBSD\nk\n", b"$5 and $NetBSD: y $\nkeep\n",
+            b"# see CVS keyword $NetBSD\n\n--- a\n+++ b\n", b"keep\n$NetBSD\nkeep2\n", b"keep\n$NetBSD", b"$NetBSD\n", b"keep\nx$NetBS\nD\n", b"k\n$NetBSD\r\nz\n",
             # the marker straddling the first / second 8192-byte refill of the patch reader's buffer
             b"a" * (8192 - 3 - 3) + b"\n+ $NetBSD: x $ tail\nkeep\n", b"a" * (8192 - 3 - 6) + b"\n+ $NetBSD: x $ tail\nkeep\n",
             b"a" * (16384 - 3 - 1) + b"\n+ $NetBSD: x $ tail\nkeep\n", b"a" * (8192 - 3) + b"\n+ $NetBSD$\n",
@@ -47,6 +48,18 @@ def filter_patch(b):
 def generate(rng, tier):
     n = 120 if tier == "quick" else 2500
     cases = []
+    # every content of the table at least once as a patch file (filter applies) and as a distfile (it does not), verified
+    # exactly and with its last byte dropped - not left to the luck of the draw
+    for i, content in enumerate(CONTENTS):
+        for nm, is_patch in ((b"patch-aa", True), (b"sub/patch-zz", True), (b"foo-1.0.tar.gz", False)):
+            a = (i + len(nm)) % 6
+            pre = filter_patch(content) if is_patch else content
+            text = b"$NetBSD$\n\n" + dgen.sum_line(a, nm, hashes.digest(a, pre)) + (b"" if is_patch else dgen.size_line(nm, len(content)))
+            cases.append(Case("di.verify", [enc(text), enc(nm), enc(content), str(a)], meta={"kind": "table-exact", "nt": True}))
+            if content:
+                cases.append(Case("di.verify", [enc(text), enc(nm), enc(content[:-1]), str(a)], meta={"kind": "table-drop", "nt": True}))
+            if not is_patch:
+                cases.append(Case("di.verify", [enc(text), enc(nm), enc(content), "S"], meta={"kind": "table-size", "nt": True}))
     for _ in range(n):
         names = rng.sample([b"foo-1.0.tar.gz", b"dir/foo-1.0.tar.gz", b"other/dir/foo-1.0.tar.gz", b"bar.tgz", b"sub/bar.tgz", b"patch-aa", b"patch-ab",
                             b"go/v1.zip", b"rust/v1.zip", b"v1.zip", b"x/patch-aa", b"caf\xc3\xa0.tgz", b"l\xe9.tgz",
